@@ -118,6 +118,22 @@ def make_pool(seed, n):
                    + 'task w3 "w3" {\n  effort 2d\n  allocate main { alternative %s }\n  priority 300\n}\n' % ", ".join(a[2:] + a[:2])
                    + "".join('task u%d "u%d" {\n  effort 1d\n  allocate %s\n  priority 200\n}\n' % (j, j, x) for j, x in enumerate(a[:4]))
                    + 'task w4 "w4" {\n  effort 1d\n  allocate main { alternative %s }\n  priority 100\n  depends w1\n}\n' % ", ".join(a[1:5]))
+    # texts outside my generator's dialect: random derivations of the repo's own grammar (statements of every kind
+    # embedded in a small valid project); whatever they do - schedule, fail, reject - they must do it every time
+    try:
+        from .. import gramfuzz
+        G = gramfuzz.load()
+        nts = [x for x in ("task", "task", "resource", "shift", "taskreport", "global_attribute") if x in G["rules"]]
+        grnd = random.Random(case_seed(seed, 777, 0))
+        k = 0
+        while k < max(4, n // 5):
+            t = gramfuzz.embed(grnd, grnd.choice(nts))
+            if "${now}" in t or "${today}" in t or len(t) > 6000:
+                continue
+            out.append(t)
+            k += 1
+    except ImportError:
+        pass
     fx = sorted(glob.glob(os.path.join(common.REPO, "tests", "data", "*.tjp")))
     for f in fx[: max(2, n // 8)]:
         try:
